@@ -12,6 +12,7 @@ import json, os, subprocess, sys, shutil, concurrent.futures, re, glob
 ENV=dict(os.environ, GOFLAGS='-mod=mod', GOPROXY='off', GOSUMDB='off', GOTOOLCHAIN='local'); ENV.pop('GOWORK',None)
 SRC=os.environ.get('NEUTRAL_SRC','/tmp/wt/outn'); DST='/verif/neutral'
 LINT=os.environ.get('LINT','/verif/bin/ipfixlint')
+OLD=os.environ.get('OLD_LINT','')  # optional: the analyser as it stood before these edits were seen
 PROPS=['C%02d'%i for i in range(1,21)]
 RACE={('C12','m1'),('C14','m2')}
 def sh(cmd, cwd=None, timeout=900):
@@ -52,8 +53,16 @@ def one(prop, n):
             v=[l for l in out.splitlines() if l.startswith('VIOLATION')]
             if rc!=0 or v:
                 alarms[q]=[re.sub(r' replay=\S+','',l)[:500] for l in v[:6]] or [f'exit {rc}: '+out[-300:]]
-        shutil.rmtree(f'/tmp/wt/evn_{prop}_{n}', ignore_errors=True)
         res['alarms']=alarms
+        if OLD:
+            alarms0={}
+            for q in PROPS:
+                rc,out=sh(f'{OLD} -prop {q} -tier quick -repo {wt} -verif /tmp/wt/evn_{prop}_{n}')
+                v=[l for l in out.splitlines() if l.startswith('VIOLATION')]
+                if rc!=0 or v:
+                    alarms0[q]=[re.sub(r' replay=\S+','',l)[:500] for l in v[:6]] or [f'exit {rc}: '+out[-300:]]
+            res['alarms_before']=alarms0
+        shutil.rmtree(f'/tmp/wt/evn_{prop}_{n}', ignore_errors=True)
         res['meta_from_author']=open(d+'/meta.txt').read() if os.path.exists(d+'/meta.txt') else ''
     finally:
         sh(f'git -C /repo worktree remove --force {wt}'); shutil.rmtree(wt, ignore_errors=True)
@@ -78,7 +87,7 @@ def main():
                 shutil.copy(f'{SRC}/{p}/{n}/patch.diff', out+'/patch.diff')
                 json.dump(dict(area_property=p, variant=n, origin='independent sub-agent asked for a behaviour-preserving edit (property text, anchors and a scratch worktree only)',
                                author_rationale=r['meta_from_author'], verification=dict(baseline_with_patch='pass', demos_of_this_property_with_patch=demos),
-                               alarms_raised_when_first_analysed=r['alarms']), open(out+'/meta.json','w'), indent=1)
+                               alarms_raised_when_first_analysed=r.get('alarms_before', r['alarms']), alarms_raised_now=r['alarms']), open(out+'/meta.json','w'), indent=1)
             else:
                 json.dump(r, open(f'/tmp/wt/unconfirmed_neutral_{p}_{n}.json','w'), indent=1)
 main()
